@@ -78,7 +78,8 @@ static iarf_e do_space(Chunk *first, Chunk *second, int &min_sp)
       && (options::sp_emb_cmt_priority()))
    {
       // Add or remove space between an embedded comment and a close parenthesis.
-      log_rule("sp_emb_cmt_priority (after)");
+      log_rule("sp_after_emb_cmt");
+      log_rule("sp_num_after_emb_cmt");
       min_sp = options::sp_num_after_emb_cmt();
       return(options::sp_after_emb_cmt());
    }
@@ -88,7 +89,8 @@ static iarf_e do_space(Chunk *first, Chunk *second, int &min_sp)
       && (options::sp_emb_cmt_priority()))
    {
       // Add or remove space between an open parenthesis and an embedded comment.
-      log_rule("sp_between_open_paren_and_emb_cmt (before)");
+      log_rule("sp_before_emb_cmt");
+      log_rule("sp_num_before_emb_cmt");
       min_sp = options::sp_num_before_emb_cmt();
       return(options::sp_before_emb_cmt());
    }
